@@ -367,7 +367,9 @@ pub fn personal_sign(k: &EthKey, text: &str) -> [u8; 65] {
 
 /// strict hex decoding: even length, [0-9a-fA-F] only
 pub fn ind_hex_decode(s: &str) -> Option<Vec<u8>> {
-    let b = s.as_bytes();
+    ind_hex_decode_bytes(s.as_bytes())
+}
+pub fn ind_hex_decode_bytes(b: &[u8]) -> Option<Vec<u8>> {
     if b.len() % 2 != 0 {
         return None;
     }
